@@ -138,6 +138,21 @@ theorem prefixMono_iff (g : E → Bool) (l : List E) :
     prefixMonoB g l = true ↔ l.Pairwise (fun a b => g b = true → g a = true) :=
   prefixMonoB_iff g l
 
+/-- the driver answers with the spec (instead of `any`) only inside the **stated** domain
+    (`split_at`/`insert_at` positions in `0..=len`, `remove_at` positions in `0..len`, monotone
+    predicates); that domain is inside the one `history_refines` is proved for -/
+theorem stated_in_domain (ops : List (Op E M V)) (ls : List (List E))
+    (h : runStatedB (G := G) I ls ops = true) : runInDomB (G := G) I ls ops = true := by
+  induction ops generalizing ls with
+  | nil => rfl
+  | cons op ops ih =>
+    simp only [runStatedB, runInDomB, Bool.and_eq_true] at h ⊢
+    refine ⟨?_, ?_⟩
+    · cases op <;> first | rfl | exact h.1
+    · cases hs : stepS (G := G) I ls op with
+      | none => rfl
+      | some r => have h2 := h.2; rw [hs] at h2; exact ih _ h2
+
 /-! ### the items the correspondence runs are lawful -/
 
 theorem sumAdd_lawful : Lawful sumAdd := sumAdd_lawful'
